@@ -72,8 +72,15 @@ def run(ctx):
     # ---- R11.2 write census on the parse path
     ent = [fx.body(CMD + "try_get_matches_from_mut")]
 
+    _tests_built = {}
+
     def follow(b, c):
         # calls made inside a one-shot (Built / BinNameBuilt guarded) region are not part of the per-parse path
+        k = id(b)
+        if k not in _tests_built:
+            _tests_built[k] = bool(b.calls_to(r"::is_set$"))
+        if not _tests_built[k]:
+            return True
         return not has_bool(b, c.bb, "F", r"Built")
     bodies = reach_calls(fx, ent, follow=follow, crates={"clap_builder"}, stop=lambda b: "::debug_asserts::" in b.q)
     written = {}
@@ -106,18 +113,20 @@ def run(ctx):
     DEF_TY = r"^&mut clap_builder::(builder::(command::Command|arg::Arg|arg_group::ArgGroup)|mkeymap::MKeyMap)$"
     nm = 0
     seen_mut = set()
+    targets = {}
+    for tb in fx.crate("clap_builder").bodies:
+        if tb.argc >= 1 and re.match(DEF_TY, tb.local_ty(1) or ""):
+            targets.setdefault(tb.q, tb)
     for b in bodies:
         for c in b.calls():
-            if not follow(b, c):
+            cb = targets.get(c.callee_q)
+            if cb is None or not follow(b, c):
                 continue
-            for cb in fx.callee_bodies(c):
-                if cb.crate.name != "clap_builder" or cb.argc < 1 or not re.match(DEF_TY, cb.local_ty(1) or ""):
-                    continue
-                nm += 1
-                if re.search(MUT_OK, cb.q):
-                    seen_mut.add(cb.q)
-                    continue
-                res.violation("R11.2", "parse-path-mut|" + cb.q.split("::", 2)[-1], c.where(), "%s takes the definition by &mut and is called on the parse path outside the one-shot build (from %s): a second parse can see a changed definition" % (cb.q, b.q))
+            nm += 1
+            if re.search(MUT_OK, cb.q):
+                seen_mut.add(cb.q)
+                continue
+            res.violation("R11.2", "parse-path-mut|" + cb.q.split("::", 2)[-1], c.where(), "%s takes the definition by &mut and is called on the parse path outside the one-shot build (from %s): a second parse can see a changed definition" % (cb.q, b.q))
         for i, j, s_ in b.stmts():
             if s_["k"] != "assign" or isinstance(s_["place"], int):
                 continue
